@@ -196,7 +196,11 @@ MUTANTS = {
         ('src/portfolio/io/tx_loader.rs', '    if provided_rate.is_some() {\n        return Ok(None);\n    }', '    if provided_rate.is_some() && curr.is_none() {\n        return Ok(None);\n    }')]),
     # ------------------------------------------------------------------ C13
     'c13_no_year_memo_guard': ('C13', ['download-guarded-by-year-memo'], [
-        ('src/fx/io/rate_loader.rs', '        if !self.year_rates.contains_key(&year) {', '        if !self.year_rates.contains_key(&year) || self.force_download {')]),
+        ('src/fx/io/rate_loader.rs', '        if need_load {\n            debug!(', '        if need_load || self.force_download {\n            debug!(')]),
+    'c13_memo_trusted_without_date_check': ('C13', ['R13d|@rate_lookup|memo-answer'], [
+        ('src/fx/io/rate_loader.rs', '            Some(rates) => {\n                !rates.contains_key(&trade_date)\n                    && !self.fresh_loaded_years.contains(&year)\n            }', '            Some(_) => false,')]),
+    'c13_redownload_for_every_missing_date': ('C13', ['download-guarded-by-year-memo'], [
+        ('src/fx/io/rate_loader.rs', '                !rates.contains_key(&trade_date)\n                    && !self.fresh_loaded_years.contains(&year)', '                !rates.contains_key(&trade_date)')]),
     'c13_cache_accepted_unconditionally': ('C13', ['cache-accepted'], [
         ('src/fx/io/rate_loader.rs', '                            if rates_map.contains_key(target_date) {\n                                return Ok(rates_map);\n                            }',
          '                            if !rates_map.is_empty() {\n                                return Ok(rates_map);\n                            }')]),
